@@ -110,11 +110,33 @@ def mutate_json(rng, doc, mut):
     return d
 
 
+TYOK = {"normal_forms": 0, "type_values_hashable": 0}
+
+
+def tyok(j):
+    """the hypothesis of C17_json_generator_own (coq/JsonErr.v, tyokb): every "type" value is a scalar or a list of scalars"""
+    scalar = lambda x: not isinstance(x, (list, dict))
+    if isinstance(j, dict):
+        t = j.get("type")
+        if "type" in j and not (scalar(t) or (isinstance(t, list) and all(scalar(x) for x in t))):
+            return False
+        return all(tyok(v) for v in j.values())
+    if isinstance(j, list):
+        return all(tyok(v) for v in j)
+    return True
+
+
 def check_json(doc):
     from fences import parse_json_schema
     from fences.json_schema.normalize import normalize
     if not (isinstance(doc, bool) or J.metaschema_ok(doc)):
         return None
+    try:
+        nf = normalize(copy.deepcopy(doc))
+        TYOK["normal_forms"] += 1
+        TYOK["type_values_hashable"] += tyok(nf)
+    except BaseException:  # noqa
+        pass
     o1 = outcome(lambda: normalize(copy.deepcopy(doc)))
     o2 = outcome(lambda: parse_json_schema(copy.deepcopy(doc)))
     return o1, o2
@@ -141,6 +163,9 @@ def check_regex(pat):
 def xsd_mutations(rng, text):
     """legal XSD constructs outside the supported subset, inserted textually"""
     outs = []
+    if ' minOccurs="' not in text or ' maxOccurs="' not in text:
+        # the plantings next to occurrence bounds need a particle that has them: give the first local element both
+        text = re.sub(r'(<xs:element name="(?!root")[^"]*")(?![^>]*Occurs=)', r'\1 minOccurs="1" maxOccurs="2"', text, count=1)
     outs.append(("attr-nillable", text.replace('<xs:element name="root"', '<xs:element name="root" nillable="true"', 1), True))
     outs.append(("attr-id", text.replace('<xs:element name="root"', '<xs:element name="root" id="i1"', 1), True))
     # the same kind of attribute on a particle that also carries occurrence bounds (a different exit of parse_xml_element)
@@ -287,8 +312,17 @@ def run(pid, tier):
             r = check_regex(pat)
             if r is not None:
                 judge("regex", pat, pat, r, False, {"front_end": "regex", "pattern": pat})
-        s = X.gen_schema(rng)
-        text = X.to_xsd(s)
+        fallback = None
+        for _attempt in range(24):                # a base schema the XSD processor accepts (some generated ones are not)
+            s = X.gen_schema(rng)                 # and that has local elements and attributes to plant constructs on
+            text = X.to_xsd(s)
+            if check_xsd(text) is None:
+                continue
+            fallback = text
+            if '<xs:element name="e' in text and "<xs:complexType" in text:
+                break
+        else:
+            text = fallback or text
         for name, t, must in xsd_mutations(rng, text):
             r = check_xsd(t)
             if r is not None:
@@ -307,6 +341,8 @@ def run(pid, tier):
                       "patterns that re.compile accepts; XSD: textual insertions accepted by xmlschema; grammar: dictionaries with foreign objects; OpenAPI: wrong field types); "
                       "distinct = (front end, construct, input), every case counts as non-trivial" % (len(JSON_MUTATIONS), len(REGEXES)))
     ck.notes["input_distribution"] = hist
+    ck.notes["hypothesis_of_C17_json_generator_own"] = dict(TYOK, meaning="normal forms returned by normalize() for the metaschema-valid documents of "
+                                                            "this run, and how many of them meet tyokb (observed, not proved)")
     ck.assumptions = ["well-formedness judges: jsonschema metaschema check, xmlschema.XMLSchema, re.compile", "ill-typed documents are outside the contract"]
     # which exception class escapes is part of what the Coq model of xml_schema/parse.py says: compare on the planted schemas
     import c07
